@@ -235,6 +235,34 @@ async def sse_gen(rec, events, raise_at):
         i += 1
 
 
+class StreamProxy(object):
+    """ONE wrapper class around every kind of stream object (a metering / logging wrapper): what an instance offers -
+    read(), close(), sync or async iteration - is what the wrapped object offers, so two instances of this class differ."""
+
+    def __init__(self, inner):
+        self._inner = inner
+
+    def __getattr__(self, name):
+        return getattr(self._inner, name)
+
+    def __iter__(self):
+        return iter(self._inner)
+
+    def __aiter__(self):
+        return self._inner.__aiter__()
+
+
+PROXYABLE = ('iter', 'iter_close', 'gen', 'file', 'file_noclose', 'agen', 'aiter', 'aiter_close', 'aiter_none_close', 'afile',
+             'afile_noclose')
+
+
+def _prelude_kind(kind):
+    """A stream kind whose traits (read / close) are the opposite of `kind`'s, on the same stack."""
+    if kind in ASGI_KINDS:
+        return 'aiter' if kind in ('afile', 'afile_noclose', 'aiter_close', 'aiter_none_close') else 'afile'
+    return 'iter' if kind in ('file', 'file_noclose', 'iter_close') else 'file'
+
+
 BUILDERS = {
     'list': lambda rec, chunks, raise_at: list(chunks),
     'iter': SyncIter, 'iter_close': SyncIterClose, 'gen': sync_gen, 'file': SyncFile,
@@ -442,6 +470,8 @@ def fill_response(case, resp, rec):
             resp.sse = sse_gen(rec, spec['chunks'], stream_raise_at(spec))
         else:
             obj = BUILDERS[kind](rec, stream_chunks(spec), stream_raise_at(spec))
+            if case.get('proxy') and kind in PROXYABLE:
+                obj = StreamProxy(obj)
             if spec.get('length') is not None:
                 resp.set_stream(obj, spec['length'])
             else:
@@ -477,6 +507,32 @@ def execute(case):
         app = falcon.App(response_type=rtype) if rtype else falcon.App()
     app.add_route('/r', Resource())
     fail_at = case.get('fail_at')
+    if case.get('proxy') and case.get('stream') and case['stream']['kind'] in PROXYABLE:
+        # history: the process has already served a response whose stream was another instance of the same wrapper
+        # class with the opposite traits
+        pk = _prelude_kind(case['stream']['kind'])
+        prec = Rec()
+        pcase = {'status': ['int', 200], 'stream': {'kind': pk, 'chunks': [b'p', b'q'], 'raise_at': None, 'length': None}, 'proxy': True}
+        if asyn:
+            class Prelude(object):
+                async def on_get(self, req, resp):
+                    fill_response(pcase, resp, prec)
+            papp = falcon.asgi.App()
+            papp.add_route('/p', Prelude())
+            try:
+                pres = A.call(papp, A.build_scope(method='GET', raw_path='/p'))
+            finally:
+                _settle_loop()
+        else:
+            class Prelude(object):
+                def on_get(self, req, resp):
+                    fill_response(pcase, resp, prec)
+            papp = falcon.App()
+            papp.add_route('/p', Prelude())
+            pres = W.call(papp, W.build_environ(method='GET', raw_path='/p',
+                                                file_wrapper=W.FileWrapper if stack == 'wsgi_fw' else None))
+        if pres.error is not None or pres.body != b'pq':
+            _fail('prelude_response', case, 'the earlier response (wrapped %s stream) came out as error=%r body=%r' % (pk, pres.error, pres.body))
     if asyn:
         spec = case.get('stream')
         is_sse = spec is not None and spec['kind'] == 'sse'
@@ -675,6 +731,8 @@ def check_case(case):
         labels.append('non_str_header_value')
     if any(h[0].startswith('set_headers') for h in case.get('headers') or ()):
         labels.append('set_headers()')
+    if case.get('proxy') and case.get('stream') and case['stream']['kind'] in PROXYABLE:
+        labels.append('stream_wrapper_after_opposite_wrapper')
     nontrivial = nsrc >= 2 or (bodiless and nsrc >= 1) or late_fault
     return Info(nontrivial, labels)
 
@@ -822,6 +880,10 @@ def fault_cases(tier):
                             'media': None, 'ctype': None, 'clen': None,
                             'stream': {'kind': kind, 'chunks': chunks, 'raise_at': None, 'length': None}}
                     yield base
+                    if kind in PROXYABLE:
+                        yield dict(base, proxy=True)
+                        if n:
+                            yield dict(base, proxy=True, fail_at=1)
                     for k in range(n + 3):
                         yield dict(base, fail_at=k)
                         if kind == 'sse':
@@ -978,6 +1040,7 @@ def _response_case(draw):
                                           'text/plain; charset=utf-8', 'application/x-generated',
                                           'text/event-stream']))
     case['ctype_how'] = draw(st.sampled_from(['prop', 'header']))
+    case['proxy'] = bool(case['stream']) and draw(st.integers(0, 3)) == 0
     if draw(st.integers(0, 2)) == 0 and not (case['stream'] and case['stream']['length'] is not None):
         n = _ref_len(dict(case, clen=None))
         case['clen'] = draw(st.sampled_from([n, n, n + 1, max(0, n - 1), 0, 10 ** 6]))
